@@ -48,7 +48,7 @@ def csr_layout(draw, max_regs=6, dws=CSR_DWS, overlaps=True):
     if draw(st.integers(0, 4)) == 0:
         # "packed odd" family: registers of 2,3,5,6,7 words placed back to back without natural
         # alignment, so that shadow chunks wrap around onto neighbouring registers (nested aliasing)
-        dw = draw(st.sampled_from([1, 2, 4, 8]))
+        dw = draw(st.sampled_from([1, 2, 4, 8] if dws is CSR_DWS else list(dws)))
         n = draw(st.integers(2, max_regs))
         regs = [{"w": dw * draw(st.sampled_from([1, 2, 3, 3, 5, 6, 6, 7])) - draw(st.sampled_from([0, 0, 1]) if dw > 1 else st.just(0)),
                  "acc": draw(st.sampled_from(["r", "w", "rw", "rw", "rw"])), "mode": "gap",
@@ -288,49 +288,58 @@ def csr_decoder_config(draw, max_subs=5, max_sub_aw=5, dws=CSR_DWS):
     n = draw(st.integers(0, max_subs))
     subs = [{"aw": draw(st.integers(1, max_sub_aw)), "named": draw(st.booleans()),
              "mode": draw(st.sampled_from(["imp", "imp", "align", "slot"])),
-             "gap": draw(st.integers(0, 2)), "k": draw(st.integers(0, 4))} for _ in range(n)]
+             "gap": draw(st.integers(0, 2)), "k": draw(st.integers(0, 4)),
+             "pk": draw(st.integers(0, 9))} for _ in range(n)]
     return {"dw": dw, "al": al, "subs": subs, "extra_aw": draw(st.integers(0, 1)),
-            "squeeze": draw(st.integers(0, 11)) == 0}
+            "squeeze": draw(st.integers(0, 11)) == 0, "shuffle": draw(st.integers(0, 2)) == 0}
 
 
-def plan_windows(al, subs_maw, subs):
-    """Allocator arithmetic for ratio-1 windows. Returns (end, [(start, end_reserved)])."""
-    cursor, out = 0, []
-    for maw, s in zip(subs_maw, subs):
+def plan_windows(al, subs_maw, subs, shuffle=False):
+    """Allocator arithmetic for ratio-1 windows. Returns (end, [(start, end_reserved)]) indexed like
+    ``subs``. With ``shuffle`` the address order follows the per-window sort key 'pk' instead of the
+    add() order (all windows are then added at explicit addresses)."""
+    order = list(range(len(subs)))
+    if shuffle:
+        order.sort(key=lambda i: (subs[i].get("pk", 0), i))
+    cursor, out = 0, [None] * len(subs)
+    for i in order:
+        maw, s = subs_maw[i], subs[i]
         eff = max(al, maw)
-        if s["mode"] == "align":
+        if s["mode"] == "align" and not shuffle:
             cursor = align_up(cursor, max(al, s["k"]))
         start = align_up(cursor, eff)
         if s["mode"] == "slot":
             start += s["gap"] << eff
         end = start + (1 << eff)
-        out.append((start, end))
+        out[i] = (start, end)
         cursor = end
     return cursor, out
 
 
-def build_csr_decoder(cfg, sub_factory=None):
+def build_csr_decoder(cfg, ifaces=None, prefix="w"):
     """-> (decoder, [sub interfaces], plan [(start, reserved_end)]). May raise ValueError when
-    cfg['squeeze'] made the decoder too small (a deliberate refusal)."""
-    maws = [s["aw"] for s in cfg["subs"]]
-    end, plan = plan_windows(cfg["al"], maws, cfg["subs"])
+    cfg['squeeze'] made the decoder too small (a deliberate refusal). ``ifaces``: pre-built
+    subordinate interfaces (their address widths are used instead of cfg['subs'][i]['aw'])."""
+    maws = [s["aw"] for s in cfg["subs"]] if ifaces is None else [i.addr_width for i in ifaces]
+    shuffle = bool(cfg.get("shuffle"))
+    end, plan = plan_windows(cfg["al"], maws, cfg["subs"], shuffle)
     aw = max(1, ceil_log2(max(end, 1))) + cfg["extra_aw"]
     if cfg["squeeze"] and aw > 1:
         aw -= 1
     dec = csr.Decoder(addr_width=aw, data_width=cfg["dw"], alignment=cfg["al"])
-    ifaces = []
+    given, ifaces = ifaces, []
     for i, (s, (ps, pe)) in enumerate(zip(cfg["subs"], plan)):
-        if sub_factory is not None:
-            iface = sub_factory(i, s)
+        if given is not None:
+            iface = given[i]
         else:
             iface = csr.Interface(addr_width=s["aw"], data_width=cfg["dw"], path=(f"sub{i}",))
             iface.memory_map = MemoryMap(addr_width=s["aw"], data_width=cfg["dw"])
         kw = {}
         if s["named"]:
-            kw["name"] = (f"w{i}",)
-        if s["mode"] == "align":
+            kw["name"] = (f"{prefix}{i}",)
+        if s["mode"] == "align" and not shuffle:
             dec.align_to(s["k"])
-        if s["mode"] == "slot":
+        if s["mode"] == "slot" or shuffle:
             kw["addr"] = ps
         got = dec.add(iface, **kw)
         ifaces.append(iface)
@@ -358,11 +367,11 @@ def wb_decoder_config(draw, max_subs=5, max_sub_aw=4):
             sub = {"aw": draw(st.integers(gbits, gbits + max_sub_aw)), "dw": sdw, "g": sdw}
         sub.update(feat=sfeat, sparse=sparse, named=draw(st.booleans()),
                    mode=draw(st.sampled_from(["imp", "imp", "align", "slot"])),
-                   gap=draw(st.integers(0, 2)), k=draw(st.integers(0, 4)))
+                   gap=draw(st.integers(0, 2)), k=draw(st.integers(0, 4)), pk=draw(st.integers(0, 9)))
         subs.append(sub)
     return {"dw": dw, "g": g, "feat": feat, "al": al, "subs": subs,
             "extra_aw": draw(st.integers(0, 1)), "squeeze": draw(st.integers(0, 11)) == 0,
-            "zero_aw": draw(st.integers(0, 3)) == 0}
+            "zero_aw": draw(st.integers(0, 3)) == 0, "shuffle": draw(st.integers(0, 2)) == 0}
 
 
 def wb_sub_map_aw(s):
@@ -373,7 +382,8 @@ def build_wb_decoder(cfg):
     """-> (decoder, [sub interfaces], plan in decoder-map (granule) addresses)."""
     gbits = (cfg["dw"] // cfg["g"]).bit_length() - 1
     maws = [wb_sub_map_aw(s) for s in cfg["subs"]]
-    end, plan = plan_windows(cfg["al"], maws, cfg["subs"])
+    shuffle = bool(cfg.get("shuffle"))
+    end, plan = plan_windows(cfg["al"], maws, cfg["subs"], shuffle)
     needed = max(ceil_log2(max(end, 1)), gbits)
     aw = max(0, needed - gbits) + cfg["extra_aw"]
     if cfg["squeeze"] and aw > 0:
@@ -391,9 +401,9 @@ def build_wb_decoder(cfg):
         kw = {"sparse": s["sparse"]}
         if s["named"]:
             kw["name"] = (f"w{i}",)
-        if s["mode"] == "align":
+        if s["mode"] == "align" and not shuffle:
             dec.align_to(s["k"])
-        if s["mode"] == "slot":
+        if s["mode"] == "slot" or shuffle:
             kw["addr"] = ps
         dec.add(iface, **kw)
         ifaces.append(iface)
